@@ -20,6 +20,7 @@ func init() {
 		Level: "exploration",
 		Rule: "printer round trip: for width w and value v (every v in [-2^(w-1), 2^w-1] for w<=12 quick / w<=16 thorough; boundary, low-entropy and PRNG values for 20 larger widths up to 4099) the constant is printed with Ident, re-read with NewIntFromString and through asm.ParseString, and the literal is also given to llvm-as|llvm-dis; all readings must equal v modulo 2^w. " +
 			"parser: every spelling (signed/unsigned decimal with and without leading zeros, u0x upper/lower case with leading zeros, full-width s0x, true/false, over-wide u0x and decimals) of every value for w<=8, and of the structured values for larger widths, must denote the big-integer value (exactly when in range, modulo 2^w otherwise), again cross-checked with LLVM. " +
+			"positions: literals inside arrays, vectors, structs, nested aggregates and constant expressions, in the input's and the printer's spelling. storage: no two constants of a parse share a *big.Int; an in-place edit of one changes one printed line and no later parse. " +
 			"a case is (width, value, spelling); non-trivial = every case (each is a distinct literal); distinct by construction",
 		Gen:           genC09,
 		MinNontrivial: 10000,
